@@ -81,8 +81,11 @@ func c01Judge(w *mon.W, c c01Case) {
 	w.HitIf(!isPalindrome(T), "non-palindromic-T")
 	w.HitIf(2*twoU == tab.Max2U(), "U1==U2")
 	w.HitIf(twoU == 0 || twoU == tab.Max2U(), "U-extreme")
-	w.HitIf(ties, "tied")
-	w.HitIf(!ties, "untied")
+	if ties {
+		w.Note("tied")
+	} else {
+		w.Note("untied")
+	}
 	w.HitIf(!ties && (n1 == stats.MannWhitneyExactLimit || n2 == stats.MannWhitneyExactLimit), "n-at-untied-limit")
 	w.HitIf(ties && (n1 == stats.MannWhitneyTiesExactLimit || n2 == stats.MannWhitneyTiesExactLimit), "n-at-tied-limit")
 	w.Distinct(mon.NewHasher().Fs(x1).Fs(x2).I(c.Alt).Sum())
